@@ -18,6 +18,17 @@ CLAIMED = {
                  "the structure catalogue, not for sampled ones.",
             "Bounded: structures of <= 4 variables, domain <= 3, arity <= 3, integer costs |c| <= 2^40; numpy storage replaced by "
             "object arrays; sleep-set reduction assumes handlers only touch their own computation.", "4/C01", S),
+    "C06": ("S", "find_arg_optimal / find_optimal / optimal_cost_value / projection and the A-DSA helper are executed on tables whose "
+                 "entries are symbolic integers or infinities, and real DSA (A/B/C), A-DSA and DSA-tuto computations run on the bench; "
+                 "z3 decides on every path that the returned set is exactly the arg-optimum set with its cost and that every DSA move is a best response.",
+            "Bounded: domain <= 3 (4 thorough), <= 2 constraints per variable, integer finite costs |c| <= 2^40 plus +/-inf, NaN excluded; "
+            "A-DSA periodic actions fired on a canonical timing (each period: all tick, then all messages delivered in any order).", "4/C06", S),
+    "C12": ("S", "set_value_for_assignment, join and projection executed on symbolic matrix tables; the cell-wise algebraic definition is one "
+                 "solver query per path, for every table value, assignment, scope pair and both argument forms.",
+            "Bounded: 4 variables with domains 2,2,3,2, scopes of size <= 3, integer (and real, thorough) entries |c| <= 2^40; numpy float64 rounding above 2^53 not modelled.", "4/C12", S),
+    "C13": ("S", "DCOP.solution_cost and assignment_cost executed with symbolic tables, symbolic variable costs and a symbolic (or float) infinity value; "
+                 "z3 decides equality with (count of infinite terms, sum of the rest) for every value, and ValueError for every non-empty set of missing variables.",
+            "Bounded: catalogue structures <= 4 variables + 1 external variable, integer costs; incomplete = strict subset of declared names.", "4/C13", S),
 }
 
 NOT_APPLICABLE = {
